@@ -32,18 +32,24 @@ type Config struct {
 	Root string // scratch directory owned by the world
 	// Names overrides the default participant names node_0..node_{N-1}.
 	Names []string
+	// Mnemonics overrides the seed-derived mnemonics (recorded ceremonies).
+	Mnemonics []string
+	// HotSalt changes the hot (communication) keys without changing the mnemonics.
+	HotSalt string
 }
 
 // World is n real nodes + n real machines around one board.
 type World struct {
-	N        int
-	Root     string
-	Seed     []byte
-	Board    *Board
-	Nodes    []*Node
-	Machines []*Machine
-	Names    []string
-	closed   bool
+	N         int
+	Root      string
+	Seed      []byte
+	Board     *Board
+	Nodes     []*Node
+	Machines  []*Machine
+	Names     []string
+	Mnemonics []string
+	HotSalt   string
+	closed    bool
 	// sharedMachines: the machines belong to the fixture, not to this world (never closed here)
 	sharedMachines bool
 }
@@ -62,16 +68,21 @@ func (w *World) resultDir(i int) string {
 }
 
 // HotKey returns participant i's deterministic hot-node key pair.
-func (w *World) HotKeySeed(i int) []byte { return derive(w.Seed, "hot", i) }
+func (w *World) HotKeySeed(i int) []byte { return derive(w.Seed, "hot"+w.HotSalt, i) }
 
 // MnemonicOf returns participant i's deterministic mnemonic.
-func (w *World) MnemonicOf(i int) string { return MnemonicFromEntropy(derive(w.Seed, "mnemonic", i)) }
+func (w *World) MnemonicOf(i int) string {
+	if i < len(w.Mnemonics) {
+		return w.Mnemonics[i]
+	}
+	return MnemonicFromEntropy(derive(w.Seed, "mnemonic", i))
+}
 
 func passwordOf(i int) []byte { return []byte(fmt.Sprintf("operator-password-%d", i)) }
 
 // New creates a fresh world: empty board, n nodes (polling started) and n machines restored from their mnemonics.
 func New(cfg Config) (*World, error) {
-	w := &World{N: cfg.N, Root: cfg.Root, Seed: cfg.Seed, Board: NewBoard()}
+	w := &World{N: cfg.N, Root: cfg.Root, Seed: cfg.Seed, Board: NewBoard(), Mnemonics: cfg.Mnemonics, HotSalt: cfg.HotSalt}
 	for i := 0; i < cfg.N; i++ {
 		name := fmt.Sprintf("node_%d", i)
 		if i < len(cfg.Names) {
